@@ -374,6 +374,17 @@ class Check(PropertyCheck):
             _, jobs = gen.gen_instance(r, r.choice(["classic", "irregular", "recirc", "ties"]), max_jobs=3, max_machines=3, max_ops=3, max_dur=6)
             inst = build_instance(jobs)
             solver = _ORToolsSolver()
+            if r.random() < 0.4:
+                # the same solver object first FAILED on another instance (a time limit far too tight for ft10), then the caller lifts
+                # the limit (a public attribute): what the failed attempt left behind is none of the next instance's business
+                from job_shop_lib.benchmarking import load_benchmark_instance
+                from impl_ext import _NoSolution
+                solver = _ORToolsSolver(max_time_in_seconds=0.0005)
+                try:
+                    solver.solve(load_benchmark_instance("ft10"))
+                except _NoSolution:
+                    pass
+                solver.max_time_in_seconds = None
             try:
                 first = solver.solve(inst)
                 dump1 = oracles.dump_schedule(first.schedule)
